@@ -17,8 +17,12 @@ EXTENDS SsTx, LinkCrc, TLC, TLCExt, Json, IOUtils
 
 Logs == JsonDeserialize(IOEnv.TRACE_FILE)
 
-VARIABLES tid, l, status
-tvars == <<vars, tid, l, status>>
+CONSTANT TimeoutCycles      \* PENDING_HP_TIMER [USB3.2 7.2.4.1.13] in cycles: 5 ms x ss_clock_frequency (0: beyond any run)
+
+VARIABLES tid, l, status,
+          tmr0,             \* explicit time (cycle stamp r.t) at which the credit timer last (re)started
+          toSeen            \* the timeout recovery of the current timer run was observed
+tvars == <<vars, tid, l, status, tmr0, toSeen>>
 
 ASSUME \A i \in 1..Len(Logs) : TLCSet(i, <<0, "ok">>)
 
@@ -38,6 +42,14 @@ HpSeq(w) == w[8] % 8
 HpDl(w) == (w[8] \div 512) % 2 = 1
 HpCrcOk(w) == LinkCrc5(w[8] % 2048) = w[8] \div 2048 /\ LinkCrc16(SubSeq(w, 1, 6)) = w[7]
 
+\* The credit timer runs while a header is unacknowledged; it restarts when the first header is accepted
+\* and whenever one is retired.  recovery_required must strobe TimeoutCycles (+1..+3 pipeline) later.
+Restarts(r) == \/ r.e \in {"up", "down", "dreset"}
+               \/ r.e = "acc" /\ unacked = <<>>
+               \/ r.e = "lc_rx" /\ LcValid(r) /\ LcCmd(r) = LGOOD /\ bringup /\ LcSub(r) % 8 = nextAck
+TimedOut(r) == /\ TimeoutCycles > 0 /\ enabled /\ unacked # <<>> /\ ~toSeen
+               /\ r.t - tmr0 >= TimeoutCycles - 1 /\ r.t - tmr0 <= TimeoutCycles + 3
+
 Judge(r) ==
     CASE r.e = "up"    -> IF enabled THEN "env_up_while_up" ELSE "ok"
       [] r.e = "down"  -> IF enabled THEN "ok" ELSE "env_down_while_down"
@@ -47,14 +59,17 @@ Judge(r) ==
                                                         ELSE "env_lcrd_illegal")
                           ELSE IF LcCmd(r) = LBAD THEN (IF LbadLegal THEN "ok" ELSE "env_lbad_illegal")
                           ELSE "ok"
+      [] r.e = "dreset" -> "ok"
       [] r.e = "lrty_done" -> IF limbo /\ cur.k = "none" THEN "ok" ELSE "env_lrty_done_illegal"
       [] r.e = "acc"   -> AcceptJudge
       [] r.e = "hps"   -> HpStartJudge
       [] r.e = "hpe"   -> IF r.ctrl # 0 \/ ~HpCrcOk(r.w) THEN "hp_malformed"
                           ELSE HpEndJudge(HpSeq(r.w), HpDl(r.w), HpContent(r.w))
       [] r.e = "retry_req" -> RetryReqJudge
-      [] r.e = "recov" -> RecovJudge
+      [] r.e = "recov" -> IF RecovJudge = "ok" \/ TimedOut(r) THEN "ok" ELSE RecovJudge
       [] r.e = "quiet" -> IF QuietJudge # "ok" THEN QuietJudge
+                          ELSE IF TimeoutCycles > 0 /\ enabled /\ unacked # <<>> /\ ~toSeen
+                                  /\ r.t - tmr0 > TimeoutCycles + 3 THEN "quiet_credit_timeout_missing"
                           ELSE IF r.qr # ReadyExpected THEN "quiet_queue_ready" ELSE "ok"
       [] OTHER -> "unknown_record"
 
@@ -66,22 +81,28 @@ Apply(r) ==
                           ELSE IF LcCmd(r) = LCRD THEN PartnerLcrd(LcSub(r))
                           ELSE IF LcCmd(r) = LBAD THEN PartnerLbad
                           ELSE UNCHANGED vars
+      [] r.e = "dreset" -> DomainReset
       [] r.e = "lrty_done" -> LrtyDone
       [] r.e = "acc"   -> Accept(AccContent(r.w))
       [] r.e = "hps"   -> HpStart
       [] r.e = "hpe"   -> HpEnd(HpSeq(r.w), HpDl(r.w), HpContent(r.w))
       [] r.e = "retry_req" -> RetryReq
-      [] r.e = "recov" -> Recov
+      [] r.e = "recov" -> IF RecovJudge = "ok" THEN Recov ELSE UNCHANGED vars      \* (timeout: no Ref change)
       [] r.e = "quiet" -> Quiet
 
-TInit == /\ Init /\ tid \in 1..Len(Logs) /\ l = 1 /\ status = "ok"
+TInit == /\ Init /\ tid \in 1..Len(Logs) /\ l = 1 /\ status = "ok" /\ tmr0 = 0 /\ toSeen = FALSE
 
 TNext == /\ status = "ok"
          /\ l <= Len(Logs[tid])
          /\ LET r == Rec
-                j == Judge(r) IN
+                \* the timer is overdue as soon as any later event is stamped beyond the window
+                j == IF TimeoutCycles > 0 /\ enabled /\ unacked # <<>> /\ ~toSeen
+                        /\ r.t - tmr0 > TimeoutCycles + 3 THEN "credit_timeout_missing" ELSE Judge(r) IN
               /\ status' = j
               /\ IF j = "ok" THEN Apply(r) ELSE UNCHANGED vars
+              /\ tmr0' = IF Restarts(r) THEN r.t ELSE tmr0
+              /\ toSeen' = IF Restarts(r) THEN FALSE
+                            ELSE IF r.e = "recov" /\ RecovJudge # "ok" /\ TimedOut(r) THEN TRUE ELSE toSeen
          /\ l' = l + 1
          /\ UNCHANGED tid
 
